@@ -347,6 +347,45 @@ DIRECTED = [
 ]
 
 
+ASSIGN_OPS = {"=": "3", "+=": "11", "-=": "5", "*=": "24", "/=": "2.6666666666666665", "%=": "2", "&=": "0", "|=": "11", "^=": "11", "<<=": "64", ">>=": "1"}
+ASSIGN_TARGETS = {"local": "loc", "global": "glob", "property": "c.n", "index": "v[0]", "self-field": None, "nested-index": "w[0][0]", "chained": "c.inner.n"}
+# an assignment may not stand where an operand of a tighter-binding operator is expected ...
+ASSIGN_BAD_CTX = {"mul": "2 * @", "neg": "-@", "not": "!@", "cmp": "10 > @", "and": "true && @", "or": "false || @", "eq": "1 == @", "add": "1 + @",
+                  "range": "0..@", "bitor": "1 | @", "shift": "1 << @", "call-arg-mul": "id(2 * @)"}
+# ... and may stand wherever a whole expression is expected; its value is the value assigned
+ASSIGN_OK_CTX = {"plain": "@", "paren": "(@)", "call-arg": "id(@)", "paren-in-mul": "1 * (@)", "vec-element": "[@][0]", "index-of": "[0, @][1]"}
+
+
+def assignment_grid():
+    """Every assignment operator x every kind of target x every position: (a) positions where the grammar allows no assignment (operand of
+    a tighter-binding operator) must be rejected at compile time - for every kind of target alike; (b) positions that take a whole
+    expression must accept it, assign exactly once and yield the assigned value (8 <op> 3 computed here)."""
+    out = []
+    for tk, t in ASSIGN_TARGETS.items():
+        for op, val in ASSIGN_OPS.items():
+            for good, table in ((False, ASSIGN_BAD_CTX), (True, ASSIGN_OK_CTX)):
+                for ck, ctx in table.items():
+                    lines = ["fn id(x) { return x; }", "#[constructor(new)]", "class Inner { }", "#[constructor(new)]",
+                             "class C { fn bump(self) { var r = CTX; return r; } }", "var glob = 8;", "fn run() {", "    var loc = 8;",
+                             "    var c = C.new(); c.n = 8; c.inner = Inner.new(); c.inner.n = 8;", "    var v = [8]; var w = [[8]];"]
+                    if tk == "self-field":
+                        lines[4] = lines[4].replace("CTX", ctx.replace("@", "self.n %s 3" % op))
+                        lines += ["    var r = c.bump();", "    print(r); print(c.n);"]
+                    else:
+                        lines[4] = lines[4].replace("CTX", "1")
+                        lines += ["    var r = %s;" % ctx.replace("@", "%s %s 3" % (t, op)), "    print(r); print(%s);" % t]
+                    lines += ["}", "run();", 'print("done");']
+                    exp = [val, val, "done"] if good else None
+                    if tk in ("index", "nested-index"):
+                        # the language has no compound assignment to an element (a syntax error everywhere), and `v[i] = x` used as a
+                        # value is nil (SetItem leaves nil; documented quirk Q-C05-1)
+                        exp = ["nil", "3", "done"] if (good and op == "=") else None
+                        if good and ck == "paren-in-mul":
+                            continue
+                    out.append(("assign:%s/%s/%s" % (tk, op, ck), "\n".join(lines) + "\n", exp))
+    return out
+
+
 def correspondence(ctx, model_ok=True):
     rng = ctx.rng.fork("c05")
     failures = []
@@ -390,6 +429,19 @@ def correspondence(ctx, model_ok=True):
         if c[0] != "ok" or list(c[2]) != exp:
             failures.append({"what": "directed scenario '%s' prints %s (%s %s), expected %s" % (name, list(c[2]) if len(c) > 2 else c, c[0], list(c[3])[:1] if len(c) > 3 else "", exp),
                              "program": src, "expected": exp, "signature": "scenario " + name, "failing_input": True})
+    grid = assignment_grid()
+    ares, _ = progs.run_programs(ctx.runner, [(n, s, {}) for n, s, _ in grid], {"gc": "default"}, tag="a")
+    for (name, src, exp), r in zip(grid, ares):
+        c = progs.canon_step(r)
+        if exp is None:
+            good = c[0] == "err" and c[1] == "CompileError" and not c[2]
+        else:
+            good = c[0] == "ok" and list(c[2]) == exp
+        if not good:
+            failures.append({"what": "%s: %s, observed %s" % (name, "an assignment written as the operand of a tighter-binding operator must be rejected at compile time"
+                                                            if exp is None else "expected %s" % exp, str(c)[:200]),
+                             "program": src, "expected": exp, "must_not_compile": exp is None,
+                             "signature": "assignment position " + name.split("/")[0].split(":")[1] + ("/rejected" if exp is None else "/accepted"), "failing_input": True})
     gen = progs.generated(rng, ["expr", "control", "typed", "typed-try"], 8000 if ctx.thorough else 600)
     sd = specdiff.diff(ctx, [(n, s, m) for n, s, m, _ in gen] + [("scenario:" + n, s, {}) for n, s, _ in DIRECTED], "C05", broken) if model_ok else {"failures": [], "compared": 0}
     failures += sd["failures"]
@@ -401,7 +453,7 @@ def correspondence(ctx, model_ok=True):
                 "random structured control-flow programs (if/else-if/else, while, for, break, continue, blocks, return) interpreted by the same reference; distinct = distinct program",
         "samples": [cases[0][1][:600], cases[-1][1][:600]],
         "operator_occurrences": ops_seen, "expression_modes": tags,
-        "programs_compared_with_reference_interpreter": sd["compared"],
+        "programs_compared_with_reference_interpreter": sd["compared"], "assignment_position_programs": len(grid),
         "programs": len(cases),
     }
     from props.c08 import dedupe
@@ -413,6 +465,8 @@ def replay(ctx, payload):
         return False, "nothing to replay"
     r, _ = progs.run_programs(ctx.runner, [("r", payload["program"], {})], {"gc": "default"})
     c = progs.canon_step(r[0])
+    if payload.get("must_not_compile"):
+        return c[0] == "err" and c[1] == "CompileError", str(c)[:1000]
     if payload.get("expected") is not None:
         return c[0] == "ok" and list(c[2]) == payload["expected"], str(c)[:1000]
     return c[0] == "ok", str(c)[:1000]
